@@ -12,11 +12,11 @@ claim("C20", "post-condition monitors attached to odc.geo.math (all aliases rebo
 claim("C17", "post-condition monitors on every ROI helper with numpy indexing as reference model; exhaustive small-domain enumeration + seeded N-D tuples and point envelopes; numeric-UB (RuntimeWarning) monitor",
       "Each helper call is compared with what numpy selects from arange(n): exhaustive for n<=6 (quick) / n<=9 (thorough) over all open/negative/out-of-range slices, "
       "all pairs of slices for the intersections, pads and scales; point envelopes are judged against an unbounded-integer model and stated predicates "
-      "(inside image, contains in-image points, padding, alignment, non-finite ignored) with outliers up to 1e300; slice bounds and image shapes also as numpy integers, point arrays in other memory layouts / read-only / single precision / small signed and unsigned integer types / empty.",
+      "(inside image, contains in-image points, padding, alignment, non-finite ignored) with outliers up to 1e300; slice bounds and image shapes also as numpy integers, point arrays in other memory layouts / read-only / single precision / small signed and unsigned integer types / empty; padding and alignment also as narrow numpy scalars.",
       _TB + " Stepped slices are outside the statement and only counted.", "DESIGN.md 5/C17")
 
 claim("C04", "reference-model monitor: counting-array brute force over real Tiles/VariableSizedTiles/GeoboxTiles objects (incl. instances created inside library code, recorded by an __init__ hook) and plain-numpy mosaics for BlockAssembler",
-      "1-D exhaustive regular tilings (N<=24 quick / <=120 thorough, every tile size up to N+10) and all compositions of totals <=6/9 as variable tilings, each "
+      "GeoboxTiles from regular runs and chunk tuples with zero-length chunks; 1-D exhaustive regular tilings (N<=24 quick / <=120 thorough, every tile size up to N+10) and all compositions of totals <=6/9 as variable tilings, each "
       "checked pixel by pixel (painted exactly once, locate inverse of region lookup, chunks, crop/clip re-basing); GeoboxTiles tiles compared with independently "
       "computed crops of the parent, crop ranges written in every equivalent way (':', 'a:', ':b', from the end, bare integers; all rows x some columns and vice versa); ~2e3/3e4 seeded block mosaics (subsets of blocks x windows x dtypes x fill x axis) compared with numpy assignment.",
       _TB + " GeoBoxes reached through two different translation chains are compared to 1e-6 px, not bit for bit.", "DESIGN.md 5/C04")
@@ -24,25 +24,25 @@ claim("C04", "reference-model monitor: counting-array brute force over real Tile
 claim("C16", "reference-model monitor: integer-lattice rectangles vs the real GeoBox |, &, overlap_roi, enclosing, snap_to and bounding-box lattice laws",
       "Families of 2-4 real GeoBoxes on a common grid (7 affine families, every relative placement incl. disjoint left/above and touching) are combined with the real "
       "operators; results are mapped back to integer rectangles with plain numpy matrices and compared with min/max rectangle algebra; overlap_roi is applied to a boolean "
-      "image; incompatible grids (>=1e-3 px / scale / 0.1 deg, also when the boxes are up to 200000 px apart, and whether or not the operands were looked at before) must raise; bounding-box laws are checked with exact float equality.",
+      "image; incompatible grids (>=1e-3 px / scale / 0.1 deg, also when the boxes are up to 200000 px apart, and whether or not the operands were looked at before) must raise; regions for enclosing also as smooth outlines with hundreds of vertices; bounding-box laws are checked with exact float equality.",
       _TB + " Regions in another CRS are projected with the oracle's own pyproj transformer.", "DESIGN.md 5/C16")
 
 claim("C08", "post-condition monitors on GeoBox.from_bbox / from_geopolygon / zoom_to(resolution=) evaluated on every call (direct stratified workload + calls from compute_output_geobox)",
       "Arithmetic on the returned GeoBox only: requested pixel size and sign, per-side coverage up to tol, excess < 1 px + tol, anchor alignment unless floating/tight, "
-      "exact shape and < 1 px displacement for shape requests; ~3e4 (quick) / 2e6 (thorough) judged calls over resolution signs x anchors (incl. XY fractions) x tight x tol x magnitudes 1e-3..1e9 px "
+      "exact shape and < 1 px displacement for shape requests; single-number shapes judged at from_geopolygon too (also across CRSs); ~3e4 (quick) / 2e6 (thorough) judged calls over resolution signs x anchors (incl. XY fractions) x tight x tol x magnitudes 1e-3..1e9 px "
       "with start coordinates placed on either side of every tolerance boundary.",
       _TB + " Round-off allowance 1e-9 px + 1e-14 x pixel index (a few ulps).", "DESIGN.md 5/C08")
 
 claim("C14", "reference-model monitor: analytic grid model vs real GridSpec on an index window, plus self-consistency (pairwise disjointness, shared edges), seeded point/bbox/polygon queries and slippy-map formula",
       "Each seeded grid specification (4 flip combinations x resolution signs x origins up to 1e6 x tile shapes 1..4000) is examined on [-4,4]^2 + far indices: footprints vs model, "
       "interior-disjoint, neighbours share edges, 40 points per grid incl. edges/corners, bbox queries (random, exactly tile-aligned with edge contacts excluded, aligned +- a sliver), polygon / multi-part / holed queries in the "
-      "grid CRS and in EPSG:4326 (must/may sets by shapely areas), rebuild from a sample tile, web_tiles z<=22 against the slippy-map formula and the world-bounds query; sibling grids (one resolution sign / flip flag / CRS / origin changed) used one after the other with identical probes; one caller-supplied geobox_cache shared by all queries of a grid; tile indices also as numpy integers.",
+      "grid CRS and in EPSG:4326 (must/may sets by shapely areas), rebuild from a sample tile, web_tiles z<=22 against the slippy-map formula and the world-bounds query; sibling grids (one resolution sign / flip flag / CRS / origin changed) used one after the other with identical probes; one caller-supplied geobox_cache shared by all queries of a grid; tile indices also as numpy integers; GridSpec.geojson judged like the polygon query; nested multi-part queries.",
       _TB + " Cross-CRS polygon queries are densified so vertex-wise projection follows the true image.", "DESIGN.md 5/C14")
 
 claim("C01", "exception/result monitor over the enumerated product operation x CRS-tag pair x geometry kind, ground truth from generator labels (cross-checked with pyproj), shapely on raw shapes as reference",
       "Quick: every combining operation x all 289 ordered CRS-tag pairs (17 tags incl. four user-defined CRSs no authority lists) with sampled geometry kinds, n-ary streams with the odd operand at every position, BoundingBox and "
       "grid-compatible GeoBox operands; thorough: the full product over 11x11 geometry kinds (exhaustive: true). Mismatch must raise ValueError/CRSMismatchError before any "
-      "result exists; equal CRSs (any spelling) must give the shapely result tagged with the first operand's CRS. Shapes include three GEOS-invalid kinds (bow-tie, overlapping multipolygon, hole outside the shell). A process history (500 one-off CRSs in two spellings used and dropped, then thousands of different one-off CRSs combined pairwise, pairs at recycled object addresses first) is judged the same way.",
+      "result exists; equal CRSs (any spelling) must give the shapely result tagged with the first operand's CRS. CRS tags include CRS objects of another library (rasterio). Shapes include three GEOS-invalid kinds (bow-tie, overlapping multipolygon, hole outside the shell). A process history (500 one-off CRSs in two spellings used and dropped, then thousands of different one-off CRSs combined pairwise, pairs at recycled object addresses first) is judged the same way.",
       _TB + " Shapely/GEOS is trusted for the reference result; a generator (split) is consumed before judging.", "DESIGN.md 5/C01")
 
 claim("C07", "post-condition monitors on Geometry.to_crs / Geometry.segmented / densify (aliases rebound) with the oracle's own pyproj transformer and plain-numpy edge geometry; there-and-back differential",
@@ -68,37 +68,37 @@ claim("C03", "post-condition monitor on compute_reproject_roi: brute force over 
       "For each pair every destination pixel centre is mapped to the source independently; needed pixels must lie in roi_dst and their source locations in roi_src, regions inside their "
       "images (source up to the next multiple of read_shrink), empty when separated by more than padding(+align), scale = min(scale2) with scale2 checked exactly (scale+translation), as "
       "uniform scale (similarity) or bracketed by Jacobian singular values, read_shrink integer >=1 not exceeding scale by more than 1e-3, reported transform cross-checked. ~3.7e3 pairs "
-      "quick / 7e4 thorough over 10 same-CRS families x placements x padding/align and 10 CRSs, plus fixed probes: curved source edges, curved destination edges (fine wide strips), rasters ending on the antimeridian, a stream of 300 rasters in one-off local projections planned to and from lon/lat in one process, the same CRS in two spellings on grids running 0..360 or past the limits, and the curvature probes repeated on objects that were used before.",
+      "quick / 7e4 thorough over 10 same-CRS families x placements x padding/align and 10 CRSs, plus fixed probes: curved source edges, curved destination edges (fine wide strips), rasters ending on the antimeridian, a stream of 300 rasters in one-off local projections planned to and from lon/lat in one process, the same CRS in two spellings on grids running 0..360 or past the limits, the curvature probes repeated on objects that were used before, and 2000-px rasters rotated against each other by hundredths of a degree.",
       _TB + " compute_reproject_roi has no caller inside odc-geo, so only direct calls are observed.", "DESIGN.md 5/C03")
 
 claim("C10", "differential monitor: numpy paste of the planned regions vs GDAL nearest-neighbour warp through the real rio_reproject, bit for bit, per dtype; paste_ok vs generator labels",
       "Every paste-able pair with read_shrink 1 is executed both ways for 8 dtypes (incl. the int8/bool detour, explicit and default nodata) and compared exactly; for larger shrink factors the "
       "source region must be the destination region times the factor; paste_ok must agree with how the pair was built (integer scale and whole-pixel shift within ttol/stol on either side of "
-      "the tolerance, per axis, stol in {1e-3, 1e-2, 1e-4}; never for rotation/shear/fractional scale); a third of the pairs are also planned with padding / align requested and whatever such a plan reports is held to the same statement; source arrays in 6 memory layouts; twelve pinned pairs of unit-pixel grids at the CRS origin (D35). ~1.8e3 pairs and ~9e3 warps quick, 3e4 / 1.5e5 thorough.",
+      "the tolerance, per axis, stol in {1e-3, 1e-2, 1e-4}; never for rotation/shear/fractional scale); a third of the pairs are also planned with padding / align requested and whatever such a plan reports is held to the same statement; source arrays in 6 memory layouts; twelve pinned pairs of unit-pixel grids at the CRS origin (D35); the same warp also requested through warp_affine. ~1.8e3 pairs and ~9e3 warps quick, 3e4 / 1.5e5 thorough.",
       _TB + " GDAL is the reference warper; only binary-exact grids so ties cannot occur.", "DESIGN.md 5/C10")
 
 claim("C11", "post-condition monitor on compute_output_geobox and on GeoBox.to_crs itself (also reached via .odc.output_geobox): all source pixel corners projected with the oracle's own pyproj transformer",
       "Result must be axis-aligned in the requested CRS and contain every projected source pixel corner up to tol output pixels; default anchor => edges on multiples of the pixel size; "
       "shared units with auto/same => source resolution; explicit resolution exact; shape requests exact (integer: n, or n+1 only with snapping) and displaced < 1 px + the 0.9 source-pixel "
       "buffer; same CRS + defaults => identical object; utm / utm-n / utm-s => UTM zone set, requested hemisphere, valid area overlapping the raster. ~550 requests quick / 1.2e4 thorough "
-      "plus fixed many-pixel curvature probes (tile- and region-sized, north-up and rotated), own-CRS requests with non-default options, and authority-axis-order transformers requested first for half of the CRS pairs; anchors as strings, numbers, XY fractions and AnchorEnum members; a tight request must give the same grid with and without an anchor; utm keywords in every letter case; the xarray accessor's answer judged directly.",
+      "plus fixed many-pixel curvature probes (tile- and region-sized, north-up and rotated), own-CRS requests with non-default options, and authority-axis-order transformers requested first for half of the CRS pairs; anchors as strings, numbers, XY fractions and AnchorEnum members; a tight request must give the same grid with and without an anchor; utm keywords in every letter case; the xarray accessor's answer judged directly; continental rasters (tens of millions of pixels) in tight mode.",
       _TB + " Rasters above 7e4 corners use every outline corner and every 7th interior one.", "DESIGN.md 5/C11")
 
 claim("C12", "reference-model monitor: brute force over all tiles with shapely footprints (numpy matrices, the oracle's own pyproj transformer) vs GeoboxTiles.tiles / range_from_bbox / grid_intersect",
       "For each seeded tiling (regular/variable, 7 affine families) and query (polygon or bounding box; inside, straddling each edge, touching, outside, larger; same or other CRS) the reported "
       "tiles must contain every tile sharing more than a sliver with the query and, for geometries, only tiles not disjoint from it; for each pair of tiled rasters every (destination, source) "
-      "tile pair with more than a sliver of common footprint must be an edge, and rasters separated by > 2 px must give no edge and no exception; global source x regional destination graphs are judged in the source CRS, near-integer pixel-size ratios on 3000-8000 px rasters by interval arithmetic; a third of the rasters are handed over as views (resized, neighbour-of-neighbour, flipped twice, translated back) of parents whose lazy attributes were read first, a third of the tilings are crops of a queried parent tiling. ~830 queries + 490 graphs quick. Known finding K5 is classified by mechanism.",
+      "tile pair with more than a sliver of common footprint must be an edge, and rasters separated by > 2 px must give no edge and no exception; global source x regional destination graphs are judged in the source CRS, near-integer pixel-size ratios on 3000-8000 px rasters by interval arithmetic; a third of the rasters are handed over as views (resized, neighbour-of-neighbour, flipped twice, translated back) of parents whose lazy attributes were read first, a third of the tilings are crops of a queried parent tiling; grids of ~5000 tiles queried with lines, rings and scattered points. ~830 queries + 490 graphs quick. Known finding K5 is classified by mechanism.",
       _TB + " Cross-CRS bounding-box queries are skipped (a 4-point polygon by design).", "DESIGN.md 5/C12")
 
 claim("C06", "history checker over recorded PartsWriter calls (unique chunk ids, position-dependent bytes) + invariant hook on MPUChunk (byte conservation, credits, increasing ids); exhaustive merge trees; real dask under random topological orders and thread pools",
       "Every history - the real append/merge/spill/collate/finalise operations driven over ALL binary merge trees of every generated configuration with <= 4 (quick) / 5 (thorough) partitions, "
       "seeded random trees up to 12 partitions, and mpu_write(...).compute() under seeded random topological orders (sync) and 2-8 threads with injected writer delays - must satisfy: parts by "
       "increasing id == header+chunks+footer, ids unique / in range / increasing, every part but the last >= min_write_sz, finalise once with exactly the written receipts in order, header/footer "
-      "callbacks saw the complete ordered (size,id) list, no exception, and the caller's chunks (bytes, fresh bytearrays, one bytearray reused for every chunk of a size) unchanged afterwards; dask partitions as lists, tuples and lazy one-shot iterators. ~2.8e3 histories quick, 5e5 thorough.",
+      "callbacks saw the complete ordered (size,id) list, no exception, and the caller's chunks (bytes, fresh bytearrays, one bytearray reused for every chunk of a size) unchanged afterwards; dask partitions as lists, tuples and lazy one-shot iterators; writers with a small upper part size. ~2.8e3 histories quick, 5e5 thorough.",
       _TB + " Writers with fewer than 1 + partitions x writes_per_chunk part numbers are outside the domain.", "DESIGN.md 5/C06")
 
 claim("C05", "file-content monitor: every file written by save_cog_with_dask(...).compute() is decoded by two independent readers (rasterio/GDAL, tifffile page/tag inspection) and its part-writer history is recorded at the MPUFileSink boundary; task orders randomised",
-      "Per configuration: GDAL pixels/dtype/band order/padding/transform/CRS/nodata and overview factors; tifffile: IFD count = levels+1 with levels re-derived from the statement, padded shape a "
+      "Shapes 1..600 px (incl. layouts whose padding adds whole tile rows, D36). Per configuration: GDAL pixels/dtype/band order/padding/transform/CRS/nodata and overview factors; tifffile: IFD count = levels+1 with levels re-derived from the statement, padded shape a "
       "multiple of 2^levels, each overview exactly half, tile sizes multiples of 16 and as requested, all (offset,bytecount) intervals contiguous up to EOF with no gap/overlap, every overview "
       "level stored before larger ones, level-0 decode equals the source, nearest overviews drawn from their 2x2 parent block; sink history (ids, sizes >= 4096 but the last, finalise once, "
       "sum = file size). ~115 files quick / 1e4 thorough over shapes 1..256, 3 layouts (sample-axis chunking incl.), 8 dtypes, 10 blocksize lists, 4 compressions, constant-area data, pixel magnitudes (huge / tiny / NaN-inf / ends of the integer range), user-defined CRSs (read-back CRS judged by ellipsoid and where a map point lands), sources in 6 memory layouts, nodata declared via nodata / _FillValue, an earlier save of other pixels that died half way at the same destination, file and fake-S3 destinations, random topological orders and 2-8 threads; non-termination is decided by a logical bound on writes, the wall-clock watchdog is inconclusive.",
@@ -107,7 +107,7 @@ claim("C05", "file-content monitor: every file written by save_cog_with_dask(...
 claim("C18", "deterministic thread-schedule controller (sys.monitoring LINE yield points + cooperative lock + modelled linearizable distributed Variable/Lock) with a history checker over a fake S3 client's single log; file-system audit hook for the file sink; limit accessors enumerated",
       "A: every schedule with <= 2 preemptions of 2 concurrent first writes (in-process path: exhaustive; cluster paths: capped DFS) and <= 1 preemption of 3, in five modes (in-process warm / cold lock registry, cluster with one writer copy per worker, cluster with one shared writer object; shared variable prepared or not; a stale upload aborted by id between two writes), plus seeded random walks, ~1e4 "
       "schedules quick / 4e5 thorough, each judged: exactly one create, all upload_part and the complete under that id, no writer exception, no deadlock; real in-process distributed.Client "
-      "rounds cross-check the modelled primitives; B: MPUFileSink.finalise on seeded part lists (sizes incl. 0, any order, relocated parts dir, earlier crashed / kept-parts rounds at the same destination, parts written twice): destination == concatenation, parts and dir gone, "
+      "rounds cross-check the modelled primitives; B: MPUFileSink.finalise on seeded part lists (sizes incl. 0, any order, relocated parts dir, earlier crashed / kept-parts rounds at the same destination, parts written twice, parts of 16 MiB and more): destination == concatenation, parts and dir gone, "
       "bystander untouched per audit hook; C: all subsets of the four limit keywords reported back, max > min.",
       _TB + " Interleavings are statement-granular; real S3 and multi-process clusters are not available offline.", "DESIGN.md 5/C18")
 
@@ -115,11 +115,11 @@ claim("C13", "differential monitor: xr_reproject on dask-backed data (computed u
       "Per case both results must have the same shape/dtype; for same-CRS nearest they must be identical (nearest ties excluded off binary-exact grids); every destination pixel whose centre "
       "maps > 2 px outside the source must hold the fill value (nodata, else NaN for floats, else 0) in both results - so empty chunks, partially covered chunks and the in-memory path agree "
       "across seams; disjoint rasters give all-fill without an exception. ~270 cases quick / 5.6e4 thorough over 10 same-CRS kinds + cross-CRS, 1-pixel and non-dividing chunkings, 6 dtypes, "
-      "time axis, nearest/bilinear, explicit dst_nodata, nodata areas in the data, global sources, sources in 6 memory layouts (left unchanged), irregular source chunkings, unit-pixel grids with a chunk corner on the CRS origin (D35), two chunkings inside one dask expression, ~240 distinct execution orders per quick run. Known finding K5 is classified by mechanism.",
+      "time axis, nearest/bilinear, explicit dst_nodata, nodata areas in the data, global sources, sources in 6 memory layouts (left unchanged), irregular source chunkings, (time,y,x,band) rasters, unit-pixel grids with a chunk corner on the CRS origin (D35), two chunkings inside one dask expression, ~240 distinct execution orders per quick run. Known finding K5 is classified by mechanism.",
       _TB + " GDAL is shared by both paths.", "DESIGN.md 5/C13")
 
 claim("C09", "history monitor with tracker index vectors: after every step the GeoBox recovered through .odc must place each remaining element where its original pixel was (numpy matrices) and agree with the labels; round-trip and reprojection outputs compared with the requested GeoBox",
-      "Per history (1-6 steps of strided/reversed slicing, arithmetic, comparison, astype, pickle, copy; 7 affine families incl. rotated/sheared, 1xN/Nx1/1x1 with CRS, 3 ranks, numpy and dask) "
+      "User-defined CRSs on a fifth of the boxes, recovered CRS compared with pyproj's strict equality. Per history (1-6 steps of strided/reversed slicing, arithmetic, comparison, astype, pickle, copy; 7 affine families incl. rotated/sheared, 1xN/Nx1/1x1 with CRS, 3 ranks, numpy and dask) "
       "positions are checked for every remaining pixel and labels for axis-aligned boxes; wrap -> .odc.geobox must return shape, CRS and corners to 1e-6 px (GCP boxes, fresh and zoomed / cropped / padded: same pixel->world mapping on a probe grid), histories also on control-point boxes (positions against the original box's own mapping); "
       "xr_reproject / .odc.reproject of DataArrays and Datasets to GeoBoxes, CRS strings and 'utm' must yield the destination GeoBox on the container and each variable, CRS included, "
       "without crs/crs_wkt/grid_mapping/gcps/epsg attrs on variables and on the Dataset and with non-spatial variables passed through; requests to a CRS carry grid options (anchor / resolution / tight) and are compared with what compute_output_geobox gives for the source GeoBox, as is the accessor's own answer; an operation after reprojection keeps the registration. ~1.5e3 histories + 350 reprojections quick.",
